@@ -35,10 +35,12 @@ func init() {
 			"and Run calls Decide only for those two rules with (msg.Value(), msg.Round(), classify's justification); " +
 			"(V4) the Decide callback of core/consensus/qbft hands subscribers UnmarshalNew of qcommit[i].Values()[valueHash] (checked lookup by the decided hash; Values() is the recomputed-hash map, C05-A3); " +
 			"(V5) the only other PRE-PREPARE value is pv of getSingleJustifiedPrPv(justification), unreachable when its ok result is false, inside the UponQuorumRoundChanges branch, with classify handing over the checked result of getJustifiedQrc. " +
+			"(V6) walked under 'msg.Type() == PRE-PREPARE and every Definition.IsLeader(instance, msg.Round(), msg.Source()) call yields false', every reachable return of isJustified (helpers entered) yields false: a PRE-PREPARE is accepted only from the designated leader of its round; " +
+			"(V7) core/consensus/qbft: every key removed from the per-duty instances map (map[core.Duty]*instance.IO), followed backwards through parameters to all in-package call sites, captured variables, local cells and helper results, is a duty received from a channel obtained from core.Deadliner.C() (the once-only Running/Proposed/Participated markers of a decided duty survive until the duty expires, so a late Propose/Participate cannot start a second instance). " +
 			"Relies on C02-Q1/Q2/Q4 (source-unique quorums, justified-before-classified, justification predicates) and C05-A1/A3 (values map keyed by recomputed hashes).",
 		NotDecided: "'some leader proposed the value' as a history property over schedules and adversaries; that Quorum() > 0 (a decided qcommit is non-empty, so the latch test sees it); purity of the Msg accessors.",
 		Run:        c03,
-		Mutants:    c03Mutants,
+		Mutants:    append(append(c03Mutants, c03n5LeaderMutants...), c03n5InstanceMutants...),
 	})
 }
 
@@ -48,6 +50,8 @@ func c03(c *rt.Ctx) {
 	c.Rule("V3", 20, func() { c03V3(c) })
 	c.Rule("V4", 4, func() { c03V4(c) })
 	c.Rule("V5", 7, func() { c03V5(c) })
+	c.Rule("V6", 1, func() { c03V6(c) })
+	c.Rule("V7", 1, func() { c03V7(c) })
 }
 
 // ---------------------------------------------------------------------------------------------
